@@ -82,6 +82,8 @@ def note_len(t, n):
         return
     if t[0] == 'sym':
         return
+    if t[0] == 'app' and t[1] in ('Slice', 'SliceMut'):
+        return      # the length of a slice is structural (or unknown); never learn it from a destination type
     old = LEN.get(t)
     if old is None:
         LEN[t] = n
@@ -163,6 +165,9 @@ def mk_slice(base, a, b):
     """Slice(base, a, b) with a, b terms (Int or symbolic); resolves through Cat/Slice when possible"""
     if base is None:
         return App('Slice', ('unk', 'none'), a, b)
+    if base[0] == 'app' and base[1] == 'Slice' and b == App('len', base) and a[0] == 'int' and base[2][1][0] == 'int':
+        # base[a..] where base = X[a0..b0]  ==>  X[a0+a..b0]
+        return mk_slice(base[2][0], Int(base[2][1][1] + a[1]), base[2][2])
     if a[0] == 'int' and b[0] == 'int':
         lo, hi = a[1], b[1]
         L = tlen(base)
